@@ -354,4 +354,148 @@ def owner_of(s):
     return None
 
 
-MONITORS = {"C04": mon_c04, "C15": mon_c15, "C03": mon_c03, "C08": mon_c08, "C10": mon_c10, "C11": mon_c11, "C12": mon_c12}
+# ---------------- C05 ----------------
+def mon_c05(cfg, steps):
+    out = []
+    first_received = {}     # batch -> amount recorded when it became Received
+    paid = {}               # batch -> sum of payouts
+    paid_to = set()
+    for s in steps:
+        t = s.optoks
+        st = s.post
+        if st is None:
+            continue
+        if not s.aborted:
+            for bid, b in st["batches"].items():
+                if b["status"] == "received" and bid not in first_received:
+                    first_received[bid] = b["received"]
+            # pending total = sum of its requests; other totals bound their open requests
+            sums = {}
+            for (bid, u, a) in st["reqs"]:
+                sums[bid] = sums.get(bid, 0) + a
+            keys = [(bid, u) for (bid, u, a) in st["reqs"]]
+            if len(keys) != len(set(keys)):
+                out.append({"step": s.idx, "what": "two requests for one (batch, account)"})
+            pb = st["batches"].get(st["pending"])
+            if pb is not None and sums.get(st["pending"], 0) != pb["total"]:
+                out.append({"step": s.idx, "what": "pending batch total %d differs from the sum of its requests %d" % (pb["total"], sums.get(st["pending"], 0))})
+            for bid, sm in sums.items():
+                b = st["batches"].get(bid)
+                if b is not None and sm > b["total"]:
+                    out.append({"step": s.idx, "what": "open requests of batch %d sum to %d, above its total %d" % (bid, sm, b["total"])})
+        if t[0] != "exec" or s.res != "ok" or s.pre is None or s.st is None:
+            continue
+        k = t[5]; who = unhex(t[3]).decode("utf-8", "replace"); pre = s.pre
+        for bid, b in pre["batches"].items():
+            nb = s.st["batches"].get(bid)
+            if b["status"] == "received" and nb is not None and (nb["received"] != b["received"] or nb["total"] != b["total"]):
+                out.append({"step": s.idx, "what": "batch %d had received %d (total %d); after %s it records %s (total %s): payouts now depend on withdrawal timing" % (bid, b["received"], b["total"], k, nb["received"], nb["total"])})
+        if k == "unstake":
+            a = sum(int(x.split(":")[1]) for x in t[4][1:-1].split(",") if x)
+            p = pre["pending"]
+            old = dict(((b, u), x) for (b, u, x) in pre["reqs"]).get((p, who), 0)
+            new = dict(((b, u), x) for (b, u, x) in s.st["reqs"]).get((p, who))
+            if new != old + a:
+                out.append({"step": s.idx, "what": "unstake of %d: request %d -> %s (repeated unstakes must accumulate)" % (a, old, new)})
+        if k == "withdraw":
+            bid = int(t[6]); b = pre["batches"].get(bid)
+            req = dict(((x, u), a) for (x, u, a) in pre["reqs"]).get((bid, who))
+            pays = [m for m in s.msgs if m["facet"] in ("msg:send", "msg:bank")]
+            if b is None or req is None:
+                out.append({"step": s.idx, "what": "withdraw succeeded without a request of %s in batch %d" % (who, bid)}); continue
+            if b["status"] != "received":
+                out.append({"step": s.idx, "what": "withdraw from batch %d in status %s" % (bid, b["status"])}); continue
+            if len(pays) != 1:
+                out.append({"step": s.idx, "what": "withdraw emitted %d payments" % len(pays)}); continue
+            R = first_received.get(bid, b["received"])
+            exp = R * req // b["total"] if b["total"] else None
+            got = pays[0].get("amount")
+            if got != exp:
+                out.append({"step": s.idx, "what": "withdraw from batch %d paid %s; floor(received %d x request %d / total %d) = %s" % (bid, got, R, req, b["total"], exp)})
+            if not s.aborted:
+                if (bid, who) in paid_to:
+                    out.append({"step": s.idx, "what": "%s was paid twice from batch %d" % (who, bid)})
+                paid_to.add((bid, who))
+                paid[bid] = paid.get(bid, 0) + (got or 0)
+                if paid[bid] > R:
+                    out.append({"step": s.idx, "what": "payouts of batch %d add up to %d, more than the %d received for it" % (bid, paid[bid], R)})
+                if any((x, u) == (bid, who) for (x, u, a) in s.st["reqs"]):
+                    out.append({"step": s.idx, "what": "request not removed by withdraw"})
+    return out
+
+
+# ---------------- C06 ----------------
+RANK = {"pending": 0, "submitted": 1, "received": 2}
+
+
+def batches_wf(st):
+    p = st["pending"]; bs = st["batches"]
+    if sorted(bs) != list(range(1, p + 1)):
+        return "batch ids %r are not 1..%d" % (sorted(bs), p)
+    for k, b in bs.items():
+        if (b["status"] == "pending") != (k == p):
+            return "batch %d has status %s, pending id is %d" % (k, b["status"], p)
+        if b["status"] == "pending" and b["time"] is None:
+            return "pending batch without deadline"
+        if b["status"] == "submitted" and (b["time"] is None or b["expected"] is None):
+            return "submitted batch %d without deadline/expected amount" % k
+        if b["status"] == "received" and (b["received"] is None or b["expected"] is None):
+            return "received batch %d without received/expected amount" % k
+    return None
+
+
+def mon_c06(cfg, steps):
+    out = []
+    for s in steps:
+        t = s.optoks
+        if s.st is None or s.pre is None:
+            if s.st is not None and t[0] == "inst" and s.res == "ok":
+                w = batches_wf(s.st)
+                if w:
+                    out.append({"step": s.idx, "what": "after instantiate: " + w})
+            continue
+        pre = s.pre; st = s.st
+        if t[0] in ("exec", "reply", "sudo") and s.res == "ok":
+            w = batches_wf(st)
+            if w:
+                out.append({"step": s.idx, "what": w})
+            for k, b in pre["batches"].items():
+                nb = st["batches"].get(k)
+                if nb is None:
+                    out.append({"step": s.idx, "what": "batch %d disappeared" % k}); continue
+                if RANK[nb["status"]] < RANK[b["status"]]:
+                    out.append({"step": s.idx, "what": "batch %d moved from %s back to %s" % (k, b["status"], nb["status"])})
+                if b["expected"] is not None and nb["expected"] != b["expected"]:
+                    out.append({"step": s.idx, "what": "expected amount of batch %d changed from %d to %s" % (k, b["expected"], nb["expected"])})
+                if b["status"] == "received" and (nb["received"] != b["received"] or nb["status"] != "received"):
+                    out.append({"step": s.idx, "what": "batch %d already received %d, now records %s (%s)" % (k, b["received"], nb["received"], nb["status"])})
+                if nb["status"] == "received" and b["status"] != "received":
+                    ok = t[0] == "exec" and t[5] == "unstaked" and int(t[6]) == k
+                    who = unhex(t[3]).decode("utf-8", "replace") if t[0] == "exec" else ""
+                    hook = b32.hook_sender(pre["protocol"]["channel"], pre["native"]["staker"], pre["protocol"]["prefix"])
+                    now_s = int(t[1]) // 10 ** 9 if t[0] == "exec" else 0
+                    if not ok or who != hook:
+                        out.append({"step": s.idx, "what": "batch %d became received by %s from %s" % (k, " ".join(t[5:7]) if t[0] == "exec" else t[0], who)})
+                    elif b["status"] != "submitted" or b["time"] is None or now_s < b["time"]:
+                        out.append({"step": s.idx, "what": "batch %d became received at %d, its unbonding deadline is %s (status before: %s)" % (k, now_s, b["time"], b["status"])})
+        if t[0] == "exec" and t[5] == "submit" and s.res in ("ok", "err"):
+            p = pre["pending"]; b = pre["batches"].get(p)
+            if b is None:
+                continue
+            now_s = int(t[1]) // 10 ** 9
+            has_req = any(x == p for (x, u, a) in pre["reqs"])
+            ready = (not pre["stopped"]) and has_req and b["time"] is not None and now_s >= b["time"] and pre["L"] >= b["total"]
+            if ready and s.res == "err" and now_s + max(pre["batch_period"], pre["native"]["unbonding"]) < 2 ** 64:
+                out.append({"step": s.idx, "what": "SubmitBatch refused at %d although the pending batch is non-empty and was due at %d" % (now_s, b["time"])})
+            if not ready and s.res == "ok":
+                out.append({"step": s.idx, "what": "SubmitBatch accepted at %d: stopped=%s non-empty=%s deadline=%s" % (now_s, pre["stopped"], has_req, b["time"])})
+            if s.res == "ok":
+                nb = st["batches"].get(p + 1); ob = st["batches"].get(p)
+                if st["pending"] != p + 1 or nb is None or nb["total"] != 0 or nb["time"] != now_s + pre["batch_period"]:
+                    out.append({"step": s.idx, "what": "after SubmitBatch at %d the new pending batch is %r (batch period %d)" % (now_s, nb, pre["batch_period"])})
+                if ob is None or ob["status"] != "submitted" or ob["time"] != now_s + pre["native"]["unbonding"]:
+                    out.append({"step": s.idx, "what": "batch %d submitted at %d with unbonding period %d records deadline %s" % (p, now_s, pre["native"]["unbonding"], ob and ob["time"])})
+    return out
+
+
+MONITORS = {"C04": mon_c04, "C15": mon_c15, "C03": mon_c03, "C08": mon_c08, "C10": mon_c10, "C11": mon_c11, "C12": mon_c12, "C05": mon_c05, "C06": mon_c06}
